@@ -157,6 +157,16 @@ def run(ctx):
                 ctx.ob("SIBLING", f"{u}|{t}|writer-arm", False, f"the reader decodes ({u}, {t}) with {readers} but write_to_buffer has no encoding arm for it (it panics): a parsed model with this element cannot be written", wbody.file, wbody.line)
                 continue
             wnames, wfields, _wb = w_
+            # the encoded value may be assembled before the inner match (hoisted): add the Vertex fields the
+            # encoder's data argument derives from
+            wfields = set(wfields)
+            wix_ = index_of(wbody)
+            for bi_ in _wb:
+                t_ = wbody.blocks[bi_]["t"]
+                if t_["k"] == "call" and (t_.get("res") or "").split("::")[-1].startswith("write_") and "MDL" in (t_.get("res") or "") and len(t_["args"]) >= 2:
+                    for adt_, nm_ in derive(wix_, t_["args"][1]).fields:
+                        if adt_ == "model::Vertex":
+                            wfields.add(nm_)
             writers = [n_ for n_ in wnames if n_.startswith("write_")]
             if not readers and not writers:
                 ctx.ob("SIBLING", f"{u}|{t}|writer-arm", True, f"({u}, {t}) is skipped by both sides", wbody.file, wbody.line, trivial=True)
@@ -228,13 +238,12 @@ def run(ctx):
                     cc = [((t_.get("res") or (t_["f"].get("k") or {}).get("fn") or "")).split("::")[-1] for _bi, t_ in prog.body(cb_.name).calls()]
                     if cc.count("from_f32") == 1 and cc.count("to_bits") == 1:
                         for _bi, t_ in b_.calls():
-                            ga_ = " ".join((t_["f"].get("k") or {}).get("ga", []))
+                            gal = (t_["f"].get("k") or {}).get("ga", [])
                             cal = (t_.get("res") or (t_["f"].get("k") or {}).get("fn") or "")
-                            m_ = _re.search(r"\[f32; (\d+)\]", ga_)
-                            if cal.split("::")[-1] == "map" and cb_.name.split("::")[-1].strip("{}") in ga_.replace("closure@", "closure#") or (cal.split("::")[-1] == "map" and m_ and "closure" in ga_):
-                                if m_ and int(m_.group(1)) == n_from:
+                            if cal.endswith("array::<impl [T; N]>::map") and len(gal) >= 3 and gal[0] == "f32" and gal[1].isdigit() and "closure" in gal[2]:
+                                if int(gal[1]) == n_from:
                                     ok_h = True
-                                    det_h = f"f16::from_f32(..).to_bits() mapped over [f32; {m_.group(1)}]"
+                                    det_h = f"f16::from_f32(..).to_bits() mapped over [f32; {gal[1]}]"
             ctx.ob("ENCODE", f"{fn}|half", ok_h, f"{fn} encodes with {det_h}", b_.file, b_.line)
 
     # ---- EDIT: edit operations store what the caller supplied; header recomputation derives from the model's own fields
@@ -376,10 +385,32 @@ def uv_combine_order(body, blocks):
     from ..panic import BodyIndex
 
     ix = BodyIndex(body)
+    cands = []
     for bi in sorted(blocks):
         for s in body.blocks[bi]["s"]:
             rv = s.get("rv", {})
             if rv.get("k") == "agg" and rv.get("ak") == "array" and len(rv["ops"]) == 4:
+                cands.append(rv)
+    if not cands:
+        # the array may be built before the inner match: follow the encoder's data argument back to its literal
+        for bi in sorted(blocks):
+            t = body.blocks[bi]["t"]
+            if t["k"] == "call" and (t.get("res") or "").split("::")[-1].startswith("write_") and len(t["args"]) >= 2:
+                p = op_place(t["args"][1])
+                for _ in range(6):
+                    if p is None:
+                        break
+                    d = ix.single_def(p["l"])
+                    if not d or d[0] != "assign":
+                        break
+                    rv = d[3]["rv"]
+                    if rv["k"] == "agg" and rv.get("ak") == "array" and len(rv["ops"]) == 4:
+                        cands.append(rv)
+                        break
+                    p = rv["p"] if rv["k"] == "ref" else op_place(rv["a"]) if rv["k"] in ("use", "cast") else None
+    for rv in cands:
+        if True:
+            if True:
                 out = []
                 for o in rv["ops"]:
                     r = ix.resolve(o)
